@@ -67,7 +67,7 @@ def job_bits(prog, chk, tier):
     fn = root['inst']
     f = prog.inst[fn]
     clos_ty = root['closure_ty']
-    nmax = 3 if tier == 'quick' else 6
+    nmax = 3 if tier == 'quick' else 4       # 16^n paths: the digit table is a 16-way match
     from mirsym.refsem import IR
     for enc in 'BH':
         for n in range(0, nmax + 1):
@@ -131,8 +131,8 @@ def job_octet(prog, chk, tier):
             m = chk.holds(r.pc, z3.And([b == w for b, w in zip(bits, want)]) if bits else True, 'octet-to-bits')
             if m:
                 chk.violation(f"C07 octet->bits n={n}", f"bytes {[model_int(m, b, False) for b in bs]} are not expanded MSB first", {'kind': 'kernel'})
-    nbits = 9 if tier == 'quick' else 17
-    for n in (list(range(0, 10)) if tier == 'quick' else list(range(0, 18))):
+    nbits = 9 if tier == 'quick' else 16      # 2^n paths: one fork per bit
+    for n in (list(range(0, 10)) if tier == 'quick' else list(range(0, 13)) + [16]):
         bits = [z3.Bool(f"t{i}") for i in range(n)]
 
         def run2(ex):
